@@ -175,7 +175,7 @@ fn random_script(rng: &mut Rng, max_ops: usize) -> Script {
             }
         }
     }
-    Script { cap, ops }
+    Script { cap, write_timeout_ms: None, ops }
 }
 
 /// The alphabet of the exhaustive small-scope enumeration (after the prelude `reg 1 2`).
@@ -230,7 +230,7 @@ impl Prop for C06 {
             }
             ops.push(Op::Reg { id: 0, v1: false });
             ops.push(Op::Unstall { c: 0 });
-            out.push(Script { cap: 0, ops }.render());
+            out.push(Script { cap: 0, write_timeout_ms: None, ops }.render());
         }
         // exhaustive small scope
         let alpha = alphabet();
@@ -240,7 +240,7 @@ impl Prop for C06 {
             if !seq.is_empty() {
                 let mut ops = vec![Op::Reg { id: 1, v1: false }];
                 ops.extend(seq.iter().map(|i| alpha[*i].clone()));
-                out.push(Script { cap: 1, ops }.render());
+                out.push(Script { cap: 1, write_timeout_ms: None, ops }.render());
             }
             if seq.len() < depth {
                 for i in 0..alpha.len() {
